@@ -242,8 +242,16 @@ class C13Run(E2Run):
         if sw is not None:
             pre_state = sw.operating_state.name
         pre_power = {n.config.hostname: n.operating_state.name for n in self.hosts}
+        pre_ports = {k: v.name for k, v in node.software_manager.port_protocol_mapping.items()} if (node is not None and verb in ("uninstall", "install") and kind == "application") else None
         resp = super().do_req(req, label)
         accepted = resp.status == "success"
+        if pre_ports is not None:
+            post = {k: v.name for k, v in node.software_manager.port_protocol_mapping.items()}
+            for k, owner in pre_ports.items():
+                if owner != name and post.get(k) != owner and not (verb == "install" and post.get(k) == name):
+                    raise Violation("C13", "uninstall-touched-another-softwares-port", f"{hn}: {verb} {name} changed the port map entry {k} of {owner} to {post.get(k)}", sig=f"{verb}-touched-another-softwares-port", detail={"software": name, "owner": owner})
+            if verb == "uninstall" and accepted:
+                self.probe("c13_uninstall_accepted")
         for n in self.hosts:
             if n.operating_state.name != pre_power[n.config.hostname]:
                 self.power_changed[n.config.hostname] = True
